@@ -10,7 +10,7 @@ from spec_seqcount import next_count, in_range
 from spacepackets.seqcount import SeqCountProvider, FileSeqCountProvider, PusFileSeqCountProvider
 
 M = "spacepackets.seqcount:"
-WIDTH = IntRange(0, None)
+WIDTH = IntRange(0, 4096)    # counter widths up to 4096 bits (beyond any packet format; 2**w for astronomically large w exhausts memory natively)
 
 
 # ---------------------------------------------------------------------------------- in-memory
